@@ -1,5 +1,5 @@
 """C03, C04, C06, C09, C10, C11: renamer core theorems (Model/Renamer.v, Model/Hoist.v) + leg R/S + oracles."""
-import ast, copy, collections, json, os, subprocess, sys, threading, warnings
+import ast, copy, collections, json, os, re, subprocess, sys, threading, warnings
 from harness import common, scope_leg, progs, pyscope
 
 TRUSTED = [
@@ -109,7 +109,29 @@ def oracle_alpha(res, pid, cases):
             continue
         a = scope_leg.alpha(src, out)
         if a and pid == 'C06' and not a[0].startswith(HOIST_KINDS):
-            continue      # a renaming problem, not a hoisting problem: C03 decides it
+            # a renaming problem, not a hoisting problem (C03 decides it) - unless it disappears when hoisting alone is switched off:
+            # then an introduced alias is what captures / collides
+            if not o.get('hoist_literals'):
+                continue
+            # an unbound (host-provided / builtin) name that now resolves to an introduced alias `name = <literal>`
+            m_ = re.search(r"name '([^']+)' became '([^']+)'", a[1]) if a[0] == 'free-name-changed' else None
+            if m_:
+                try:
+                    src_assigned = {t_.id for st_ in ast.walk(ast.parse(src)) if isinstance(st_, ast.Assign) for t_ in st_.targets if isinstance(t_, ast.Name)}
+                    intro = {t_.id for st_ in ast.walk(ast.parse(out)) if isinstance(st_, ast.Assign) and isinstance(st_.value, ast.Constant) for t_ in st_.targets if isinstance(t_, ast.Name)} - src_assigned
+                except SyntaxError:
+                    intro = set()
+                if m_.group(2) in intro:
+                    res.add_violation('c06-alias-captures-unbound-name', 'the alias %r introduced for a hoisted literal captures the unbound name %r of the source' % (m_.group(2), m_.group(1)),
+                                      {'source': src, 'options': {k: v for k, v in o.items() if v}, 'output': out})
+                    continue
+            try:
+                a2 = scope_leg.alpha(src, python_minifier.minify(src, **dict(o, hoist_literals=False)))
+            except Exception:
+                a2 = ('raised', '')
+            if a2:
+                continue
+            a = ('alias-' + a[0], a[1] + ' (only with hoist_literals on)')
         if a:
             res.add_violation('%s-%s' % (pid.lower(), a[0]), 'output is not the input up to a consistent renaming: %s (%s)' % a, {'source': src, 'options': {k: v for k, v in o.items() if v}, 'output': out})
     return n
